@@ -70,13 +70,17 @@ std::unique_ptr<NodeResult> WriteFileNode::evaluate(PSC::Context &ctx) {
         throw PSC::RuntimeError(token, ctx, "Expected string for file name");
     
     auto &filename = filenameRes->get<PSC::String>();
-    PSC::File *file = ctx.getFileManager().getFile(filename);
-    if (file == nullptr)
-        throw PSC::FileNotOpenError(token, ctx, filename.value);
-    if (file->getMode() == PSC::FileMode::READ)
-        throw PSC::RuntimeError(token, ctx, "File '" + filename.value + "' is opened as read-only");
-    else if (file->getMode() == PSC::FileMode::RANDOM)
-        throw PSC::RuntimeError(token, ctx, "Attempting to use 'WRITEFILE' on random file. Use 'PUTRECORD' instead.");
+    auto fileForWriting = [&]() -> PSC::File* {
+        PSC::File *f = ctx.getFileManager().getFile(filename);
+        if (f == nullptr)
+            throw PSC::FileNotOpenError(token, ctx, filename.value);
+        if (f->getMode() == PSC::FileMode::READ)
+            throw PSC::RuntimeError(token, ctx, "File '" + filename.value + "' is opened as read-only");
+        else if (f->getMode() == PSC::FileMode::RANDOM)
+            throw PSC::RuntimeError(token, ctx, "Attempting to use 'WRITEFILE' on random file. Use 'PUTRECORD' instead.");
+        return f;
+    };
+    fileForWriting();
 
     auto nodeRes = data.evaluate(ctx);
     std::unique_ptr<PSC::String> data;
@@ -108,7 +112,8 @@ std::unique_ptr<NodeResult> WriteFileNode::evaluate(PSC::Context &ctx) {
             throw PSC::TypeOperationError(token, ctx, "Write");
     }
 
-    file->write(*data);
+    // the value may have been computed by a function that closed or reopened the file
+    fileForWriting()->write(*data);
 
     return std::make_unique<NodeResult>(nullptr, PSC::DataType::NONE);
 }
